@@ -208,7 +208,10 @@ def check_property(prop, cfg, tier="quick", seed=0):
             for o, info in r["obligations"].items():
                 obligations[o] = info
                 if info.get("ok"): discharged.add(o)
-            violations += r.get("violations", [])
+            for v in r.get("violations", []):
+                kn = [k for k in known if matches_known(k, prop, v["obligation"], v.get("item"), [x.get("stmt") or "" for x in v.get("sites", [])])]
+                if kn: knowns.append((kn[0], v))
+                else: violations.append(v)
             tool_errors += r.get("tool_errors", [])
             cmds += r.get("cmds", [])
             trusted += r.get("trusted", [])
